@@ -10,14 +10,16 @@ Driver of the integrated simulation model (exe `drv_sim`).  One request per line
   src [idx,..]                pending list of one source in pop order           -> ok
   layout <site> [[eqg,[comp,..]],..]                                            -> ok
   method <r|s|f> <fu> <stationary> <crews> <cap> <workdayH> <considerDaylight> <considerWeather>
-         <perDay> <perSite|-> <upfront> <mdl> <err> <trd>                       -> ok <m>     (m = program position)
+         <perDay> <perSite|-> <upfront> <mdl> <trd>                             -> ok <m>     (m = program position)
   msite <m> <site> <S> <siteCost> <rs> [months] [depYears] [simYears] [[mo,d],..]  -> ok   (planner order)
   fup <m> <stationary> <rd> <delay> <prop> <thrFirst> <thr> <inst|-> <filter> <sw> <lw> <sthr> <lthr> -> ok
-  dates [[y,m,d],..]          calendar date of day 0,1,..                       -> ok
+  dates [[y,m,d],..]          calendar date of day 0,1,.. given explicitly      -> ok
+  start <y> <m> <d> <N>       calendar computed by the model (`dateOf`) for days 0..N-1 -> ok [[y,m,d],..]
   daylight [minutes,..]       daylight minutes of day 0,1,..                    -> ok
   rolls <day> <m> [[em,s,t],..]   s,t in 0/1 (drawn outcome) or 2 (not drawn)   -> ok
   travel <day> <m> [[site,T],..]                                                -> ok
   unworkable <day> <m> [site,..]                                                -> ok
+  shift <day> <m> <site> [[group,comp,percent],..]   quantification shift of each measured unit (site level: 0,0)  -> ok
   run <N>                                                                       -> ok wf=<0|1>   (`wfWorld` of the scenario)
   row <n>    -> new:active:rep:nat:exp:emis:mit:non|cost:repCost:natCost:tagged|<per method>;..
                 per method = cost,flags|-,tags|-,visited,travel,survey,upfront,sRolls,tRolls,missingRolls
@@ -66,6 +68,7 @@ structure DState where
   rollT : Std.HashMap Nat Bool := {}
   travel : Std.HashMap Nat Int := {}
   unwork : Std.HashMap Nat Bool := {}
+  shifts : Std.HashMap Nat Int := {}
   -- results
   rows : Array TsRow := #[]
   outs : Array DayOut := #[]
@@ -73,6 +76,8 @@ structure DState where
   nRun : Nat := 0
 
 def key3 (d m x : Nat) : Nat := (d * 64 + m) * 1048576 + x
+
+def key5 (d m x g c : Nat) : Nat := (key3 d m x * 4096 + g) * 4096 + c
 
 def mkWorld (s : DState) : World :=
   { ems := s.ems.toList, srcs := s.srcs.toList, layout := fun i => (s.layout.getD i []) }
@@ -95,7 +100,8 @@ def mkInputs (s : DState) : Inputs :=
     travel := fun d m i => s.travel.getD (key3 d m i) 0,
     workable := fun d m i => !(s.unwork.getD (key3 d m i) false),
     daylightMin := fun n => s.daylight.getD n 1440,
-    repairCost := fun i => s.costs.getD i 0 }
+    repairCost := fun i => s.costs.getD i 0,
+    shift := fun d m x g c => s.shifts.getD (key5 d m x g c) 0 }
 
 def parsePair (s : String) : Option (Nat × Nat) := do
   match ← natList? s with
@@ -198,21 +204,21 @@ def step (s : DState) (toks : List String) : DState × String :=
     match nat? site, listOf? parseGroup l with
     | some site, some gs => ({ s with layout := s.layout.insert site gs }, "ok")
     | _, _ => (s, "bad-op")
-  | ["method", role, fu, stat, crews, cap, wd, cd, cw, pd, ps, up, mdl, err, trd] =>
+  | ["method", role, fu, stat, crews, cap, wd, cd, cw, pd, ps, up, mdl, trd] =>
     match nat? fu, bool? stat, nat? crews, nat? cap, int? wd, bool? cd, bool? cw, int? pd, optInt? ps, int? up,
-          int? mdl, int? err, int? trd with
+          int? mdl, int? trd with
     | some fu, some stat, some crews, some cap, some wd, some cd, some cw, some pd, some ps, some up,
-      some mdl, some err, some trd =>
+      some mdl, some trd =>
       let role? : Option Role :=
         if role = "r" then some .routine else if role = "s" then some (.screen fu)
         else if role = "f" then some .followUp else none
       match role? with
       | some r =>
         let mc : Cost.MethodCost := { perDay := pd, perSite := ps, upfront := up }
-        let c : MethodCfg := { role := r, stationary := stat, crews := crews, cap := cap, workdayH := wd, considerDaylight := cd, considerWeather := cw, cost := mc, mdl := mdl, err := err, trd := trd }
+        let c : MethodCfg := { role := r, stationary := stat, crews := crews, cap := cap, workdayH := wd, considerDaylight := cd, considerWeather := cw, cost := mc, mdl := mdl, trd := trd }
         ({ s with meths := s.meths.push { cfg := c } }, s!"ok {s.meths.size}")
       | none => (s, "bad-op")
-    | _, _, _, _, _, _, _, _, _, _, _, _, _ => (s, "bad-op")
+    | _, _, _, _, _, _, _, _, _, _, _, _ => (s, "bad-op")
   | ["msite", m, site, sT, cost, rs, months, dep, sim, plan] =>
     match nat? m, nat? site, int? sT, int? cost, nat? rs, natList? months, natList? dep, natList? sim,
           listOf? parsePair plan with
@@ -240,6 +246,12 @@ def step (s : DState) (toks : List String) : DState × String :=
     match listOf? parseDate l with
     | some ds => ({ s with dates := ds.toArray }, "ok")
     | none => (s, "bad-op")
+  | ["start", y, m, d, n] =>
+    match nat? y, nat? m, nat? d, nat? n with
+    | some y, some m, some d, some n =>
+      let ds := (List.range n).map (dateOf { y := y, m := m, d := d })
+      ({ s with dates := ds.toArray }, "ok " ++ showList (fun (x : Sched.Date) => s!"[{x.y},{x.m},{x.d}]") ds)
+    | _, _, _, _ => (s, "bad-op")
   | ["daylight", l] =>
     match intList? l with
     | some ds => ({ s with daylight := ds.toArray }, "ok")
@@ -263,6 +275,14 @@ def step (s : DState) (toks : List String) : DState × String :=
         | _ => none)
       ({ s with travel := addAll s.travel kv }, "ok")
     | _, _, _ => (s, "bad-op")
+  | ["shift", d, m, site, l] =>
+    match nat? d, nat? m, nat? site, listOf? intList? l with
+    | some d, some m, some site, some ts =>
+      let kv := ts.filterMap (fun r => match r with
+        | [g, c, k] => some (key5 d m site g.toNat c.toNat, k)
+        | _ => none)
+      ({ s with shifts := addAll s.shifts kv }, "ok")
+    | _, _, _, _ => (s, "bad-op")
   | ["unworkable", d, m, l] =>
     match nat? d, nat? m, natList? l with
     | some d, some m, some is =>
